@@ -137,7 +137,7 @@ theorem missing_stays_missing (cfg : Cfg R) (cast : Nat → R) (mi : Nat) (f : F
       = ((processInsts cfg.userOnly mi f).1.flatten).map nanPat := by
   have key : (specFrameCached cfg cast mi f).1.get Key.instances
       = ((processInsts cfg.userOnly mi f).1.map
-          (prepPts (effScale cast f.H f.W cfg.maxH cfg.maxW) cfg.scale)).flatten := by
+          (prepPts (cfg.eff cast f) cfg.scale)).flatten := by
     unfold specFrameCached
     cases cfg.kind <;> simp [DictV.get, assocGet]
   rw [key]
@@ -175,7 +175,7 @@ theorem missing_stays_missing_centered (cfg : Cfg R) (cast : Nat → R) (f : Fra
     ∀ n, ((lab.getD n Pt.nan).1 = none → (out.getD n Pt.nan).1 = none) ∧
          ((lab.getD n Pt.nan).2 = none → (out.getD n Pt.nan).2 = none) := by
   intro lab out
-  let P := prepPts (effScale cast f.H f.W cfg.maxH cfg.maxW) cfg.scale lab
+  let P := prepPts (cfg.eff cast f) cfg.scale lab
   let c := centroidOf cfg.anchor P
   let q1 := (centeredBbox cast c (cropExtra cfg.cropH) (cropExtra cfg.cropW)).getD 0 Pt.nan
   let q2 := (centeredBbox cast (c.sub q1) cfg.cropH cfg.cropW).getD 0 Pt.nan
@@ -185,20 +185,20 @@ theorem missing_stays_missing_centered (cfg : Cfg R) (cast : Nat → R) (f : Fra
     simp [assocSet, DictV.get, assocGet, List.getD_eq_getElem?_getD]
   have hlen : out.length = lab.length := by
     rw [hq]
-    have := congrArg List.length (prepPts_pattern (effScale cast f.H f.W cfg.maxH cfg.maxW) cfg.scale lab)
+    have := congrArg List.length (prepPts_pattern (cfg.eff cast f) cfg.scale lab)
     simpa using this
   refine ⟨hlen, fun n => ?_⟩
-  have hpat := prepPts_pattern (effScale cast f.H f.W cfg.maxH cfg.maxW) cfg.scale lab
-  have hn : nanPat ((prepPts (effScale cast f.H f.W cfg.maxH cfg.maxW) cfg.scale lab).getD n Pt.nan)
+  have hpat := prepPts_pattern (cfg.eff cast f) cfg.scale lab
+  have hn : nanPat ((prepPts (cfg.eff cast f) cfg.scale lab).getD n Pt.nan)
       = nanPat (lab.getD n Pt.nan) := by
     have := congrArg (fun l => l[n]?) hpat
     simp only [List.getElem?_map] at this
     simp only [List.getD_eq_getElem?_getD]
-    cases h1 : (prepPts (effScale cast f.H f.W cfg.maxH cfg.maxW) cfg.scale lab)[n]? <;>
+    cases h1 : (prepPts (cfg.eff cast f) cfg.scale lab)[n]? <;>
       cases h2 : lab[n]? <;> simp_all [nanPat, Pt.nan]
   rw [hq]
   simp only [List.getD_eq_getElem?_getD, List.getElem?_map]
-  cases h1 : (prepPts (effScale cast f.H f.W cfg.maxH cfg.maxW) cfg.scale lab)[n]? with
+  cases h1 : (prepPts (cfg.eff cast f) cfg.scale lab)[n]? with
   | none => simp [Pt.nan]
   | some p =>
     simp only [List.getD_eq_getElem?_getD, h1, Option.getD_some] at hn
